@@ -538,7 +538,9 @@ class _NumericOperationsImpl(OperationsBlock):
 
         _len = ndx.asarray(nda.shape(x)[axis : axis + 1], dtype=dtypes.int64)._core()
         return _via_i64_f64(
-            lambda x: opx.top_k(x, _len, largest=descending, axis=axis)[1], [x]
+            lambda x: opx.top_k(x, _len, largest=descending, axis=axis)[1],
+            [x],
+            cast_return=False,
         )
 
     @validate_core
